@@ -110,6 +110,7 @@ func runC12(c *Ctx) {
 	c12Fields(c)
 	c12Post(c)
 	c12IssueInstant(c)
+	c12Destinations(c)
 }
 
 // ---------- net/url codec vs UrlEnc ----------
